@@ -131,14 +131,14 @@ def readOnly : List Loc := [("File", "sheetMap"), ("Workbook", "fields")]
 /-- locations for which the class-level model does NOT establish guardedness:
 `Rels.list` — relationship parts are per-instance objects (workbook rels are read
 under File.mu, drawing rels under the worksheet mutex) and the model merges them;
-`File.sharedStringItem/Temp` — the spill-to-disk shared-string index built lazily
-by `getFromStringItem` without a lock (only with `UnzipXMLSizeLimit` spilling);
+(`File.sharedStringItem/Temp`, the spill-to-disk shared-string index, was listed here
+until `getFromStringItem` was put under File.mu: the race detector reported it and
+readers got wrong values);
 `Ws.MergeCells` — `mergeCellsParser`
 caches rectangles while `AddPicture`'s `drawingResize` reads merged cells.
 None of these was reported by the race detector. -/
 def notCovered : List Loc :=
-  [("Rels", "list"), ("File", "sharedStringItem"), ("File", "sharedStringTemp"),
-   ("Ws", "MergeCells")]
+  [("Rels", "list"), ("Ws", "MergeCells")]
 
 /-- the worksheet cache `File.Sheet` (a `sync.Map`): only the FIRST load of a call matters
 (later `workSheetReader` calls of the same API call hit the cache), see
@@ -233,7 +233,8 @@ theorem covered_locations :
     [("Ws", "SheetData"), ("Ws", "Cols"), ("Ws", "DataValidations"), ("Ws", "Drawing"),
      ("Styles", "tables"), ("Sst", "SI"), ("File", "sharedStringsMap"), ("File", "SharedStrings"),
      ("File", "CalcChain"), ("CalcChain", "C"), ("ContentTypes", "list"), ("Drawing", "anchors"),
-     ("File", "mediaParts"), ("File", "drawingParts")].all
+     ("File", "mediaParts"), ("File", "drawingParts"), ("File", "sharedStringItem"),
+     ("File", "sharedStringTemp")].all
       (fun x => !allowedUnguarded.contains x) = true := by decide
 
 /-- was `File.mu` held at the first access of the trace to location `x`? (`true` if none) -/
@@ -261,16 +262,6 @@ state (`File.*`, part lists, style tables, shared strings) is never guarded by a
 mutex in `guardOfClass`: accesses to it under a worksheet mutex only are reported unguarded. -/
 theorem one_worksheet_per_call :
     wsArgs.all (fun p => p.2.all (fun a => a == "sheet")) = true := by decide
-
-/-- **finding_spill_index_unguarded** (*no data race* clause fails for workbooks opened with
-a small `UnzipXMLSizeLimit`): `getFromStringItem` builds and reads the index of the spilled
-shared-string table (`File.sharedStringItem`, `File.sharedStringTemp`) under no common lock —
-`GetCellValue` reaches it holding only its own worksheet's mutex, so reads on two worksheets
-conflict. The race detector reports it and concurrent readers get WRONG cell values
-(`spill:GetCellValue-wrong-result`). Both locations are in `notCovered`. -/
-theorem finding_spill_index_unguarded :
-    Impl.predictsRace ("File", "sharedStringItem") "GetCellValue" "GetCellValue" = true ∧
-    (Impl.unguarded "GetCellValue").contains ("File", "sharedStringTemp") = true := by decide +kernel
 
 /-! ## linearizability of critical sections -/
 
